@@ -90,7 +90,14 @@ func registerIntrinsics(p *Program) {
 		}
 		return sym.Or(alts...), true
 	})
-	h("vGetwd", func(e *Exec, _ *frame, _ *ssa.Function, a []Value) (Value, bool) { return Str{S: "/cwd/w"}, true })
+	h("vGetwd", func(e *Exec, _ *frame, _ *ssa.Function, a []Value) (Value, bool) { return Str{S: e.cwd()}, true })
+	h("vChdir", func(e *Exec, _ *frame, _ *ssa.Function, a []Value) (Value, bool) {
+		e.Ext["cwd"] = e.cstr(a[0])
+		return nil, true
+	})
+	h("vTwoDirs", func(e *Exec, _ *frame, _ *ssa.Function, a []Value) (Value, bool) {
+		return Tuple{Str{S: "/cwd/w"}, Str{S: "/cwd/v"}}, true
+	})
 	h("vBound", func(e *Exec, _ *frame, _ *ssa.Function, a []Value) (Value, bool) {
 		if !e.Branch(a[0].(*T)) {
 			panic(pathEnd{Kind: "bound", Msg: e.cstr(a[1])})
@@ -115,6 +122,13 @@ func (e *Exec) cstr(v Value) string {
 		e.unsupported("concrete string expected")
 	}
 	return s.S
+}
+
+func (e *Exec) cwd() string {
+	if d, ok := e.Ext["cwd"].(string); ok {
+		return d
+	}
+	return "/cwd/w"
 }
 
 func (e *Exec) cstrOK(v Value) string {
